@@ -1086,7 +1086,7 @@ def run(chk):
     # tie to the source by regeneration: the listed definitions are re-translated from /repo by py2coq on
     # every run and PROVED equal to the hand models (coq/props/TIE.v), plus a translator self-check
     from props._tie import run_tie
-    run_tie(chk, ['deparse', 'grammar'])
+    run_tie(chk, ['deparse', 'grammar', 'compose'])
 
 
 def replay(chk, payload):
